@@ -12,8 +12,9 @@ def Prog.unres : Prog → Prog
   | .ret t => .ret t
   | .res t => .ret t
   | .raise e => .raise e
+  | .raiseB e => .raiseB e
   | .reraise => .reraise
-  | .yld y k h => .yld (Ys.unres y) (Prog.unres k) (Prog.unres h)
+  | .yld hb y k h => .yld hb (Ys.unres y) (Prog.unres k) (Prog.unres h)
   | .sync c child k h => .sync c (Prog.unres child) (Prog.unres k) (Prog.unres h)
 def Ys.unres : Ys → Ys
   | .none => .none
@@ -34,8 +35,9 @@ theorem Prog.unres_noRes : ∀ p : Prog, (Prog.unres p).noRes = true
   | .ret _ => rfl
   | .res _ => rfl
   | .raise _ => rfl
+  | .raiseB _ => rfl
   | .reraise => rfl
-  | .yld y k h => by simp [Prog.unres, Prog.noRes, Ys.unres_noRes y, Prog.unres_noRes k, Prog.unres_noRes h]
+  | .yld _ y k h => by simp [Prog.unres, Prog.noRes, Ys.unres_noRes y, Prog.unres_noRes k, Prog.unres_noRes h]
   | .sync _ child k h => by simp [Prog.unres, Prog.noRes, Prog.unres_noRes child, Prog.unres_noRes k, Prog.unres_noRes h]
 theorem Ys.unres_noRes : ∀ y : Ys, (Ys.unres y).noRes = true
   | .none => rfl
@@ -56,8 +58,9 @@ theorem Prog.unres_noSync : ∀ p : Prog, (Prog.unres p).noSync = p.noSync
   | .ret _ => rfl
   | .res _ => rfl
   | .raise _ => rfl
+  | .raiseB _ => rfl
   | .reraise => rfl
-  | .yld y k h => by simp [Prog.unres, Prog.noSync, Ys.unres_noSync y, Prog.unres_noSync k, Prog.unres_noSync h]
+  | .yld _ y k h => by simp [Prog.unres, Prog.noSync, Ys.unres_noSync y, Prog.unres_noSync k, Prog.unres_noSync h]
   | .sync _ _ _ _ => rfl
 theorem Ys.unres_noSync : ∀ y : Ys, (Ys.unres y).noSync = y.noSync
   | .none => rfl
@@ -72,6 +75,55 @@ theorem YsL.unres_noSync : ∀ l : YsL, (YsL.unres l).noSync = l.noSync
   | .nil => rfl
   | .cons y l => by simp [YsL.unres, YsL.noSync, Ys.unres_noSync y, YsL.unres_noSync l]
 end
+
+mutual
+theorem Prog.unres_excOnly : ∀ p : Prog, (Prog.unres p).excOnly = p.excOnly
+  | .ret _ => rfl
+  | .res _ => rfl
+  | .raise _ => rfl
+  | .raiseB _ => rfl
+  | .reraise => rfl
+  | .yld _ y k h => by simp [Prog.unres, Prog.excOnly, Ys.unres_excOnly y, Prog.unres_excOnly k, Prog.unres_excOnly h]
+  | .sync _ child k h => by simp [Prog.unres, Prog.excOnly, Prog.unres_excOnly child, Prog.unres_excOnly k, Prog.unres_excOnly h]
+theorem Ys.unres_excOnly : ∀ y : Ys, (Ys.unres y).excOnly = y.excOnly
+  | .none => rfl
+  | .junk => rfl
+  | .const _ => rfl
+  | .pconst _ => rfl
+  | .task _ p => by simp [Ys.unres, Ys.excOnly, Prog.unres_excOnly p]
+  | .tup l => by simp [Ys.unres, Ys.excOnly, YsL.unres_excOnly l]
+  | .lst l => by simp [Ys.unres, Ys.excOnly, YsL.unres_excOnly l]
+  | .dict _ l => by simp [Ys.unres, Ys.excOnly, YsL.unres_excOnly l]
+theorem YsL.unres_excOnly : ∀ l : YsL, (YsL.unres l).excOnly = l.excOnly
+  | .nil => rfl
+  | .cons y l => by simp [YsL.unres, YsL.excOnly, Ys.unres_excOnly y, YsL.unres_excOnly l]
+end
+
+mutual
+theorem Prog.unres_noRaiseB : ∀ p : Prog, (Prog.unres p).noRaiseB = p.noRaiseB
+  | .ret _ => rfl
+  | .res _ => rfl
+  | .raise _ => rfl
+  | .raiseB _ => rfl
+  | .reraise => rfl
+  | .yld _ y k h => by simp [Prog.unres, Prog.noRaiseB, Ys.unres_noRaiseB y, Prog.unres_noRaiseB k, Prog.unres_noRaiseB h]
+  | .sync _ child k h => by simp [Prog.unres, Prog.noRaiseB, Prog.unres_noRaiseB child, Prog.unres_noRaiseB k, Prog.unres_noRaiseB h]
+theorem Ys.unres_noRaiseB : ∀ y : Ys, (Ys.unres y).noRaiseB = y.noRaiseB
+  | .none => rfl
+  | .junk => rfl
+  | .const _ => rfl
+  | .pconst _ => rfl
+  | .task _ p => by simp [Ys.unres, Ys.noRaiseB, Prog.unres_noRaiseB p]
+  | .tup l => by simp [Ys.unres, Ys.noRaiseB, YsL.unres_noRaiseB l]
+  | .lst l => by simp [Ys.unres, Ys.noRaiseB, YsL.unres_noRaiseB l]
+  | .dict _ l => by simp [Ys.unres, Ys.noRaiseB, YsL.unres_noRaiseB l]
+theorem YsL.unres_noRaiseB : ∀ l : YsL, (YsL.unres l).noRaiseB = l.noRaiseB
+  | .nil => rfl
+  | .cons y l => by simp [YsL.unres, YsL.noRaiseB, Ys.unres_noRaiseB y, YsL.unres_noRaiseB l]
+end
+
+theorem Prog.unres_safe (p : Prog) : (Prog.unres p).safe = p.safe := by
+  simp [Prog.safe, Prog.unres_excOnly, Prog.unres_noRaiseB]
 
 mutual
 theorem Ys.unres_labels : ∀ y : Ys, Ys.labels (Ys.unres y) = Ys.labels y
@@ -97,8 +149,9 @@ theorem bodyR_unres : ∀ (p : Prog) (gen : Bool) (t : Nat) (env : List Val) (ca
   | .ret _, _, _, _, _, _, _ => rfl
   | .res _, _, _, _, _, _, _ => by simp [Prog.unres, bodyR]
   | .raise _, _, _, _, _, _, _ => rfl
+  | .raiseB _, _, _, _, _, _, _ => rfl
   | .reraise, _, _, _, _, _, _ => rfl
-  | .yld y k h, gen, t, env, caught, i, s => by
+  | .yld hb y k h, gen, t, env, caught, i, s => by
     simp only [Prog.unres, bodyR, ysR_unres y, dc_unres]
     cases gen
     · rfl
@@ -128,8 +181,9 @@ theorem bodyA_unres : ∀ (p : Prog) (gen : Bool) (t : Nat) (env : List Val) (ca
   | .ret _, _, _, _, _, _, _ => rfl
   | .res _, _, _, _, _, _, _ => by simp [Prog.unres, bodyA]
   | .raise _, _, _, _, _, _, _ => rfl
+  | .raiseB _, _, _, _, _, _, _ => rfl
   | .reraise, _, _, _, _, _, _ => rfl
-  | .yld y k h, gen, t, env, caught, i, s => by
+  | .yld hb y k h, gen, t, env, caught, i, s => by
     simp only [Prog.unres, bodyA, resolveA_unres y, dc_unres]
     cases gen
     · rfl
@@ -171,18 +225,19 @@ theorem observe_unres (c : Call) (p : Prog) : observe c (Prog.unres p) = observe
     awaiting `fn.asyncio(args)` - started in any context state `s` - gives exactly the value / exception of `fn(args)`,
     which is also what `fn.asynq(args).value()` gives -/
 theorem equiv_noRes (c : Call) (p : Prog) (s s' : St) (hr : p.noRes = true) (hs : p.noSync = true)
-    (hm' : s'.mode = false) :
+    (hx : p.safe = true) (hm' : s'.mode = false) :
     (topA c p s).1 = (topCall c p s').1 ∧ (topValue c p s').1 = (topCall c p s').1 := by
   refine ⟨?_, by rw [topValue_eq_topCall c p s' hm']⟩
   rw [topA_eq]
   simp only [topCall, hm', Bool.false_eq_true, if_false]
-  exact bodyA_eq_bodyR p _ _ _ _ _ _ _ (by simp) (by simp [hm']) hr hs
+  exact bodyA_eq_bodyR p _ _ _ _ _ _ _ (by simp) (by simp [hm']) hr hs (Safe.ofBool hx)
 
 /-- **equivalence, semantic form**: a program may contain plain synchronous calls; if the asyncio run attempts none of
     them (none is logged), it still gives exactly the outcome of `fn(args)` -/
-theorem equiv_run_noRes (c : Call) (p : Prog) (s' : St) (hr : p.noRes = true) (hm' : s'.mode = false)
+theorem equiv_run_noRes (c : Call) (p : Prog) (s' : St) (hr : p.noRes = true) (hx : p.safe = true)
+    (hm' : s'.mode = false)
     (hn : (topA c p {}).2.log.any isSyncX = false) : (topA c p {}).1 = (topCall c p s').1 :=
-  topA_sem c p hr s' hm' hn
+  topA_sem c p hr hx s' hm' hn
 
 /-- **inside, the flag is on; siblings complete first; sync calls refused** (no `result()`): every event logged by an
     asyncio run satisfies `evOkA` - each body saw `is_asyncio_mode() = True` at its start and at every resumption, every
@@ -195,10 +250,11 @@ theorem asyncio_run_good_noRes (c : Call) (p : Prog) (hr : p.noRes = true) :
     `fn(args)`, `fn.asynq(args).value()`, `await fn.asyncio(args)`, `asyncio.run(fn.asyncio(args))`, as a task beside a
     watcher - are accepted by the observer `spec`, the same Boolean function the check evaluates on the observations of
     the real implementation -/
-theorem spec_holds_noRes (c : Call) (p : Prog) (hr : p.noRes = true) : spec (observe c p) = true := by
+theorem spec_holds_noRes (c : Call) (p : Prog) (hr : p.noRes = true) (hx : p.safe = true) :
+    spec (observe c p) = true := by
   obtain ⟨hRm, hRl⟩ := topCall_good c p
   obtain ⟨hAm, hAl⟩ := topA_good c p hr
-  have hsem := topA_sem c p hr {} rfl
+  have hsem := topA_sem c p hr hx {} rfl
   have e1 : specObs (topCall c p {}).1 (observe1 .call c p) = .ok () :=
     specObs_ok_R _ _ rfl rfl hRm (canary_off _ hRm) (by simpa [observe1] using hRl) rfl
   have hv := topValue_eq_topCall c p {} rfl
